@@ -71,6 +71,15 @@ func (g *G) EvalDoc() map[string]any {
 			if g.P(0.3) {
 				h["a"] = "hostval" // may collide with the target's key: referenced wins, equal is useless
 			}
+			if tmap, ok := m[t].(map[string]any); ok && g.P(0.35) {
+				// an EMPTY local container where the target holds a map: the merge fills it
+				// (on the evaluation copy only)
+				for _, tk := range SortedKeys(tmap) {
+					if _, isMap := tmap[tk].(map[string]any); isMap && tk[0] != '$' {
+						h[tk] = map[string]any{}
+					}
+				}
+			}
 			if g.P(0.5) {
 				h["$merge"] = t
 			} else {
